@@ -100,6 +100,9 @@ Apply(x, e) ==
     [] e.c = "CancelCall"     -> {CancelCall(x, e.a.id)}
     [] e.c = "UserSend"       -> {UserSend(x, e.a.n)}
     [] e.c = "UserCancel"     -> {UserCancel(x, e.a.op)}
+    \* pause_writing / resume_writing from the transport: the connection does no buffering of its own, keeps
+    \* its timers and its view of the peer - nothing changes
+    [] e.c = "EnvFlow"        -> {Begin(x)}
     [] e.c = "UserSub"        -> {UserSub(x, e.a.id, e.a.kind, e.a.script)}
     [] e.c = "UserUnsub"      -> {UserUnsub(x, e.a.id)}
     \* a library callback: some enabled internal action, or a relay hop that changes
